@@ -102,6 +102,10 @@ def phase_a(seed, tier, i, st):
                                     ("highs-wrapper", "exit_minus1"), ("none", "ok")])
         steps.insert(0, {"triples": warm, "op": "dot_bracket", "via": "property", "backend": backend,
                          "fault": {"kind": kind, "assign": "none", "tie": 0}, "unjudged": True})
+        if backend != "none":
+            # ... and the very next conversion asks the same back-end (same solver object, default-solver slot left
+            # as the failed conversion left it)
+            steps.insert(1, dict(base, via="property", backend=backend, fault={"kind": "ok", "tie": cfg.randrange(1 << 12)}))
     if knotted and i % 4 == 1:
         # history on ONE object: conversions that ended in the first-come-first-served fallback (no solver given,
         # a solver that fails) must not make a later conversion with a healthy solver sub-optimal.  Only explicit
